@@ -686,6 +686,27 @@ def r6_trusted_set_refreshed(ctx):
                         witness=cfg.path_lines(body, cfg.find_path(body, start, bad, cut_blocks=sets, cut_edges=cut_edges)))
         else:
             r.ok(k, cfg.loc(body, sets[0]), "set_devices on every accepted path", work=len(body.blocks))
+        # converse: where the patch has a verdict, the cache is rebuilt only on the
+        # accepted edge.  A refused patch may have been preceded by a rewind
+        # (event_patch) that is rolled back on the log only: a cache rebuilt from
+        # the rewound log would re-admit devices revoked after the rewind point.
+        switches = cfg.enum_switches(body, re.compile(r"patch::CheckedPatch$"))
+        if switches:
+            k2 = label + "|set_devices-only-when-accepted"
+            acc = set()
+            for es in switches:
+                if "Success" in es.targets:
+                    acc.add((es.block, es.targets["Success"]))
+                elif "Conflict" in es.targets and es.otherwise_live:
+                    acc.add((es.block, es.otherwise))
+            refused = cfg.reach(body, start, cut_edges=acc)
+            early = [b for b in sets if b in refused]
+            if early:
+                r.violation(k2, cfg.loc(body, early[0]),
+                            "%s rebuilds the trusted device set on a path that has not passed the Success verdict of the patch: a refused patch (after a rewind that is rolled back on the log only) changes who is trusted" % nm,
+                            work=len(refused), witness=cfg.path_lines(body, cfg.find_path(body, start, early, cut_edges=acc)))
+            else:
+                r.ok(k2, cfg.loc(body, sets[0]), "set_devices only behind CheckedPatch::Success", work=len(refused))
     if n == 0:
         r.anchor_missing("server storage merge_device / force_merge_device bodies")
 
@@ -702,7 +723,7 @@ def run(ctx):
         "authenticate_endpoint; (R3) the signed bytes are the body that is acted on (or the path), the account id comes "
         "from the header; (R4) every Ok of authenticate_endpoint passes bearer, access list and verify_device over the "
         "signed_data parameter; (R5) verify_device returns Ok for an existing account only on the verified edge; (R6) "
-        "device-log merges refresh the trusted set. Ed25519 verification and axum extraction are trusted.")
+        "device-log merges refresh the trusted set on every accepted path and only behind the Success verdict of the patch. Ed25519 verification and axum extraction are trusted.")
     ctx.trust("ed25519-dalek VerifyingKey::verify", "axum routes only what Server::router registers",
               "axum extractors run before the handler body")
     authed = r1_routes(ctx)
